@@ -169,6 +169,11 @@ func c02PoolTruncated(c *Ctx) {
 						okT = true
 						why = "field truncated by clear() on entry to every sequence (C02.a/e)"
 					}
+					// bound to a local that is only ever used truncated: every use is `v[:0]`
+					if id, isID := unparen(l).(*ast.Ident); isID && len(p.Lhs) == 1 && len(p.Rhs) == 1 && c02OnlyUsedTruncated(info, par, fi.Decl.Body, info.ObjectOf(id), id) {
+						okT = true
+						why = "local used only as v[:0] / stored into a field truncated by clear()"
+					}
 				}
 			}
 			if okT {
@@ -221,6 +226,7 @@ func c08NoEmitAfterArming(c *Ctx) {
 		return
 	}
 	ptr := types.NewPointer(parserObj.Type())
+	emitMemo := map[*types.Func]int{}
 	for _, fi := range c.P.FuncsIn("ansi") {
 		if fi.Decl.Body == nil {
 			continue
@@ -236,7 +242,9 @@ func c08NoEmitAfterArming(c *Ctx) {
 					}
 					// a call of a parser method, or through a func-typed parser field (p.exit())
 					if fn := calleeOf(info, call); fn != nil {
-						if sig, _ := fn.Type().(*types.Signature); sig != nil && sig.Recv() != nil && types.Identical(sig.Recv().Type(), ptr) && fn.Name() != "clear" {
+						// a function of the package that can reach a send / emit / a call through a function-typed
+						// parser field (by static calls inside the package)
+						if fn.Pkg() == pk.Types && ansiCanEmit(c, fn, ptr, emitMemo) {
 							offender = call
 						}
 					} else if sel, ok := call.Fun.(*ast.SelectorExpr); ok {
